@@ -734,6 +734,8 @@ func init() {
 					back = append(back, 0xe0+byte(j))
 				}
 				c.run("sw", hx(back), len(fr), exp)
+				// … and the parsed message must round-trip like any value the API built (C05)
+				c.run("rtw", hx(back), len(fr))
 			}
 		}
 	})
